@@ -259,9 +259,86 @@ func (c *Cell) load() Value {
 
 func (it *Interp) store(c *Cell, v Value) {
 	if c.epoch != it.epoch {
+		if lc := it.localCopyOf(c); lc != nil {
+			lc.storeRaw(v)
+			return
+		}
 		it.unsupported("store to frozen (package-level, initialised) memory of type " + typeStr(c.typ))
 	}
 	c.storeRaw(v)
+}
+
+// ---- path-local copies of package-level variables ----
+//
+// Globals are initialised once and shared (frozen) between paths. A path that
+// assigns to a global (or to a field/element of one) gets its own copy of that
+// variable; later accesses through the global on the same path see the copy.
+// Reference-typed contents (slices, maps) of the initial value stay shared and
+// frozen.
+
+type cellOwner struct {
+	g    *ssa.Global
+	path []int
+}
+
+func (eng *Engine) ownerOf(c *Cell) (cellOwner, bool) {
+	eng.globalsMu.Lock()
+	defer eng.globalsMu.Unlock()
+	if eng.owners == nil || eng.ownersN != len(eng.globals) {
+		eng.owners = map[*Cell]cellOwner{}
+		var walk func(g *ssa.Global, c *Cell, path []int)
+		walk = func(g *ssa.Global, c *Cell, path []int) {
+			eng.owners[c] = cellOwner{g, append([]int(nil), path...)}
+			if len(c.sub) > 4096 {
+				return // very large tables are read-only in practice
+			}
+			for i, s := range c.sub {
+				walk(g, s, append(path, i))
+			}
+		}
+		for g, c := range eng.globals {
+			walk(g, c, nil)
+		}
+		eng.ownersN = len(eng.globals)
+	}
+	o, ok := eng.owners[c]
+	return o, ok
+}
+
+func cloneCell(c *Cell, epoch int32) *Cell {
+	n := &Cell{v: c.v, agg: c.agg, epoch: epoch, typ: c.typ}
+	if c.sub != nil {
+		n.sub = make([]*Cell, len(c.sub))
+		for i, s := range c.sub {
+			n.sub[i] = cloneCell(s, epoch)
+		}
+	}
+	return n
+}
+
+func (it *Interp) localCopyOf(c *Cell) *Cell {
+	if c.epoch != 0 || it.initMode {
+		return nil
+	}
+	o, ok := it.eng.ownerOf(c)
+	if !ok {
+		return nil
+	}
+	if it.localGlobals == nil {
+		it.localGlobals = map[*ssa.Global]*Cell{}
+	}
+	root := it.localGlobals[o.g]
+	if root == nil {
+		it.eng.globalsMu.Lock()
+		frozen := it.eng.globals[o.g]
+		it.eng.globalsMu.Unlock()
+		root = cloneCell(frozen, it.epoch)
+		it.localGlobals[o.g] = root
+	}
+	for _, i := range o.path {
+		root = root.sub[i]
+	}
+	return root
 }
 
 func (c *Cell) storeRaw(v Value) {
